@@ -294,6 +294,14 @@ def r4(ctx):
                     tot = sum(int(n) if s == '+' else -int(n) for s, n in terms) % 256
                     offs.add(tot)
         ctx.ob('C11.R4', f, f.body, offs == {expect % 256}, what, 'address offset(s) mod 256: %s, expected %d' % (sorted(offs), expect % 256))
+        # the +-5 mapping is total modulo 256 (master FF <-> slave 04 wraps around): no magnitude test on the address
+        rel = []
+        for nid, v in sorted(f.nodes.items()):
+            if v['k'] == 'BinaryOperator' and v.get('op') in ('<', '>', '<=', '>='):
+                if 'addr' in (f.key(f.strip(v['lhs'], casts=True)), f.key(f.strip(v['rhs'], casts=True))):
+                    rel.append(f.text(nid))
+        ctx.ob('C11.R4', f, f.body, not rel, what + ' is total (wraps modulo 256)',
+               'magnitude test(s) on the address exclude the wrapping pair FF/04: %s' % rel if rel else 'no magnitude test on the address')
     offset_of('ebusd::getSlaveAddress', 5, 'slave = master + 5')
     offset_of('ebusd::getMasterAddress', -5, 'master = slave - 5')
     offset_of('ebusd::isSlaveMaster', -5, 'isSlaveMaster tests addr - 5')
